@@ -275,6 +275,49 @@ class EveryNodeEmpty(Part):
         return Inputs().sample(c)
 
 
+class FuzzReceive(Part):
+    """Coverage-guided campaign (atheris/libFuzzer) on receive; the oracle of this module is inside the target.
+
+    input = selector octet (side, prior history) + chunking octet + 2 cut octets + payload."""
+
+    name = "atheris-receive"
+    fuzz = True
+    shards = {QUICK: 0, THOROUGH: 16}
+    fuzz_runs = {QUICK: 0, THOROUGH: 400000}
+    budget = {QUICK: 10.0, THOROUGH: 2400.0}
+
+    def seed_corpus(self) -> t.List[bytes]:
+        import glob
+        import os
+
+        seeds = []
+        root = os.path.join(os.path.dirname(os.environ.get("VERIF_REPO_SRC", "/repo/src")), "tests", "data")
+        payloads = []
+        for f in sorted(glob.glob(os.path.join(root, "*"))):
+            with open(f, "rb") as fh:
+                payloads.append(fh.read())
+        for m in msgcheck._templates().values():
+            payloads.append(rfc4511.encode(m))
+        for i, pl in enumerate(payloads):
+            seeds.append(bytes([i % 24, 0, 0, 0]) + pl)
+        return seeds
+
+    def decode(self, data: bytes) -> t.Dict[str, t.Any]:
+        b = data + b"\x00\x00\x00\x00"
+        side = "client" if b[0] & 1 else "server"
+        preps = _PREPS_CLIENT
+        prep = preps[(b[0] >> 1) % len(preps)]
+        mode = ["one", "one", "cuts", "bytes"][b[1] & 3]
+        return {"side": side, "prep": prep, "units": [("rand", bytes(data[4:]))], "mode": mode, "cuts": [b[2] * 3, b[2] * 3 + b[3]],
+                "containers": [b[1] >> 2 & 3 if (b[1] >> 2 & 3) < 3 else 0]}
+
+    def check(self, case: t.Any, ctx: Ctx) -> t.List[Violation]:
+        return check_case(self.decode(case["data"]), ctx)
+
+    def sample(self, case: t.Any) -> t.Any:
+        return {"data": case["data"][:80].hex(), "len": len(case["data"])}
+
+
 PROP = Property(
     id="C05",
     rule=(
@@ -291,7 +334,7 @@ PROP = Property(
         "Non-trivial = input got past the envelope (complete SEQUENCE header + message id) or yielded >=1 message "
         "before failing; distinct by (side, prior, stream, cuts)."
     ),
-    parts=[Inputs(), EveryNodeEmpty()],
+    parts=[Inputs(), EveryNodeEmpty(), FuzzReceive()],
     assumptions=["a ProtocolError raised for session-logic reasons (unknown id, request sent to a client) is an allowed outcome"],
     technique="property-based fuzzing with structure-aware TLV mutation (Hypothesis) + enumerated single-node corruption sweep; atheris campaign in the thorough tier",
 )
